@@ -324,7 +324,7 @@ var unshareOK = func() bool {
 	return err == nil && strings.TrimSpace(string(out)) == "verifsim-probe"
 }()
 
-var paramPool = []string{"features=protoc+fast,module=example.com/rnd", "paths=source_relative,features=fast", "features=fast,pool=example.com/rnd/pkg0.Params,pool=example.com/rnd/pkg1.Msg", "pool=example.com/rnd/pkg0.Item,features=protoc+fast", "features=protoc+fast", "features=fast", "features=all", "", "features=fast+protoc", "features=protoc", "features=protoc+fast,paths=source_relative", "features=fast,paths=import"}
+var paramPool = []string{"features=all+bogus", "features=bogus+all", "features=fast+all+extra", "features=nope+nada", "features=fast+fast", "features=protoc+fast,module=example.com/rnd", "paths=source_relative,features=fast", "features=fast,pool=example.com/rnd/pkg0.Params,pool=example.com/rnd/pkg1.Msg", "pool=example.com/rnd/pkg0.Item,features=protoc+fast", "features=protoc+fast", "features=fast", "features=all", "", "features=fast+protoc", "features=protoc", "features=protoc+fast,paths=source_relative", "features=fast,paths=import"}
 
 func run(c *simrun.Ctx) *simrun.Violation {
 	t := c.T
